@@ -445,7 +445,14 @@ class Runner:
         self.times.append(round((self.d.now - rt.T0) * TICK))
 
     def close(self):
-        self.d.close()
+        # keep only what was recorded: thousands of live event loops make asyncio.all_tasks() quadratic
+        d, self.d = self.d, None
+        if d is not None:
+            d.close()
+            if hasattr(d, '_keep'):
+                d._keep.clear()
+            for rec in getattr(d, 'rec', {}).values():
+                rec.pop('task', None)
 
     # --- terms
     def out_term(self, o):
